@@ -190,7 +190,14 @@ pub struct Ctx {
     pub le_succ: StdMap<Arg, Vec<Arg>>,
     pub relational: bool,
     pub lemma_uses: StdMap<&'static str, u64>,
+    pub lemma_uses_q: RefCell<StdMap<&'static str, u64>>,
 }
+
+/// structural monotonicity lemmas that are enabled (each needs its proof in rt/lemmas/)
+pub const MONO_ADD: bool = true;
+pub const MONO_SUB: bool = true;
+pub const MONO_MUL: bool = true;
+pub const MONO_DIV: bool = true;
 
 /// An obligation: `direct` is the statement; `via` is an optional sufficient condition that
 /// implies it through a named lemma (proved separately by the solver for all binary32 values).
@@ -227,6 +234,7 @@ impl Ctx {
             le_succ: StdMap::new(),
             relational: true,
             lemma_uses: StdMap::new(),
+            lemma_uses_q: RefCell::new(StdMap::new()),
         }
     }
 }
@@ -493,8 +501,19 @@ impl Ctx {
             *self.lemma_uses.entry(lemma).or_insert(0) += 1;
         }
     }
-    /// `a <= b` for every input of the path?  (intervals, recorded facts, transitivity)
+    /// `a <= b` for every input of the path?  Decided from intervals, recorded facts, transitivity
+    /// and the structural monotonicity lemmas (addmono, submono, mulmono, divmono: three-variable
+    /// statements, chained), each proved by the solver for all binary32 values (rt/lemmas/).
     pub fn known_le(&self, a: Arg, b: Arg) -> bool {
+        let mut memo = StdMap::new();
+        self.le_rec(a, b, 5, &mut memo)
+    }
+
+    fn used(&self, lemma: &'static str) {
+        *self.lemma_uses_q.borrow_mut().entry(lemma).or_insert(0) += 1;
+    }
+
+    fn le_rec(&self, a: Arg, b: Arg, depth: u32, memo: &mut StdMap<(Arg, Arg), bool>) -> bool {
         let (ia, ib) = (self.ivof(a), self.ivof(b));
         if ia.nan || ib.nan {
             return false;
@@ -502,29 +521,93 @@ impl Ctx {
         if a == b || ia.hi <= ib.lo {
             return true;
         }
-        // bounded DFS over recorded facts
-        let mut stack = vec![(a, 0u32)];
-        let mut seen = std::collections::HashSet::new();
-        while let Some((x, d)) = stack.pop() {
-            if !seen.insert(x) {
-                continue;
+        if ia.lo > ib.hi {
+            return false;
+        }
+        if let Some(r) = memo.get(&(a, b)) {
+            return *r;
+        }
+        memo.insert((a, b), false);
+        let mut r = self.le.contains(&(a, b));
+        if !r && depth > 0 {
+            let na = if let Arg::N(i) = a { Some(self.nodes[i as usize]) } else { None };
+            let nb = if let Arg::N(i) = b { Some(self.nodes[i as usize]) } else { None };
+            // b = min(c, d): a <= c and a <= d;  b = max(c, d): a <= c or a <= d
+            if let Some(n) = nb {
+                match n.op {
+                    Op::Min => r = self.le_rec(a, n.a, depth - 1, memo) && self.le_rec(a, n.b, depth - 1, memo),
+                    Op::Max => r = self.le_rec(a, n.a, depth - 1, memo) || self.le_rec(a, n.b, depth - 1, memo),
+                    _ => {}
+                }
             }
-            if let Some(v) = self.le_succ.get(&x) {
-                for &y in v {
-                    if y == b {
-                        return true;
+            if !r {
+                if let Some(n) = na {
+                    match n.op {
+                        Op::Max => r = self.le_rec(n.a, b, depth - 1, memo) && self.le_rec(n.b, b, depth - 1, memo),
+                        Op::Min => r = self.le_rec(n.a, b, depth - 1, memo) || self.le_rec(n.b, b, depth - 1, memo),
+                        _ => {}
                     }
-                    let iy = self.ivof(y);
-                    if !iy.nan && iy.hi <= ib.lo {
-                        return true;
+                }
+            }
+            // same operation on both sides: monotonicity of the correctly rounded operation
+            if !r {
+                if let (Some(x), Some(y)) = (na, nb) {
+                    let fin = |t: Arg| self.ivof(t).finite();
+                    let nonneg = |t: Arg| {
+                        let i = self.ivof(t);
+                        !i.nan && i.lo >= 0.0
+                    };
+                    let pos = |t: Arg| {
+                        let i = self.ivof(t);
+                        !i.nan && i.lo > 0.0
+                    };
+                    if x.op == y.op && fin(x.a) && fin(x.b) && fin(y.a) && fin(y.b) {
+                        match x.op {
+                            Op::Add if MONO_ADD => {
+                                r = (self.le_rec(x.a, y.a, depth - 1, memo) && self.le_rec(x.b, y.b, depth - 1, memo))
+                                    || (self.le_rec(x.a, y.b, depth - 1, memo) && self.le_rec(x.b, y.a, depth - 1, memo));
+                                if r {
+                                    self.used("addmono");
+                                }
+                            }
+                            Op::Sub if MONO_SUB => {
+                                r = self.le_rec(x.a, y.a, depth - 1, memo) && self.le_rec(y.b, x.b, depth - 1, memo);
+                                if r {
+                                    self.used("submono");
+                                }
+                            }
+                            Op::Mul if MONO_MUL && nonneg(x.a) && nonneg(x.b) && nonneg(y.a) && nonneg(y.b) => {
+                                r = (self.le_rec(x.a, y.a, depth - 1, memo) && self.le_rec(x.b, y.b, depth - 1, memo))
+                                    || (self.le_rec(x.a, y.b, depth - 1, memo) && self.le_rec(x.b, y.a, depth - 1, memo));
+                                if r {
+                                    self.used("mulmono");
+                                }
+                            }
+                            Op::Div if MONO_DIV && nonneg(x.a) && nonneg(y.a) && pos(x.b) && pos(y.b) => {
+                                r = self.le_rec(x.a, y.a, depth - 1, memo) && self.le_rec(y.b, x.b, depth - 1, memo);
+                                if r {
+                                    self.used("divmono");
+                                }
+                            }
+                            _ => {}
+                        }
                     }
-                    if d < 6 {
-                        stack.push((y, d + 1));
+                }
+            }
+            // transitivity through recorded facts
+            if !r {
+                if let Some(v) = self.le_succ.get(&a) {
+                    for &z in v {
+                        if self.le_rec(z, b, depth - 1, memo) {
+                            r = true;
+                            break;
+                        }
                     }
                 }
             }
         }
-        false
+        memo.insert((a, b), r);
+        r
     }
 
     /// Facts and interval tightening for a freshly built node `n = op(a, b)`; every rule is an
